@@ -32,6 +32,8 @@ type CandidatePair struct {
 	state                    CandidatePairState
 	nominated                bool
 	nominateOnBindingSuccess bool
+	// Nomination value (renomination) of the request that set nominateOnBindingSuccess, if it carried one.
+	deferredNominationValue *uint32
 
 	// stats
 	currentRoundTripTime int64 // in ns
